@@ -314,3 +314,72 @@ def _(p):
         else:
             results.append(None)
     return results[0] if results[0] and results[1] else None
+
+
+# ------------------------------------------------------------------------------------------------ C11
+
+
+@replay("c11_coding")
+def _(p):
+    from .c11_ground import ground_for
+
+    return ground_for(p["n"], p["tag"], p["ltype"])
+
+
+@replay("c11_poly_scores")
+def _(p):
+    from formulaic.transforms.contrasts import PolyContrasts
+
+    s = [float(v) for v in p["scores"]]
+    if len(set(s)) < len(s):
+        return None
+    m = numpy.asarray(PolyContrasts(scores=s)._get_coding_matrix(list(range(len(s))), reduced_rank=True), dtype=float)
+    if not numpy.allclose(m.T @ m, numpy.eye(m.shape[1]), atol=1e-7) or not numpy.allclose(m.sum(axis=0), 0, atol=1e-7):
+        return f"poly-not-orthonormal: scores {s} give {m.tolist()}"
+    return None
+
+
+@replay("c11_pipeline")
+def _(p):
+    import pandas
+    from formulaic import model_matrix
+    from oracle import contrasts_ref as ref
+
+    table = {
+        "C(A)": (ref.as_float(ref.treatment(3, 0)), ["x", "y", "z"]),
+        "C(A, contr.treatment(base='y'))": (ref.as_float(ref.treatment(3, 1)), ["x", "y", "z"]),
+        "C(A, contr.treatment('z'))": (ref.as_float(ref.treatment(3, 2)), ["x", "y", "z"]),
+        "C(A, contr.SAS)": (ref.as_float(ref.sas(3)), ["x", "y", "z"]),
+        "C(A, contr.sum)": (ref.as_float(ref.sum_(3)), ["x", "y", "z"]),
+        "C(A, contr.helmert)": (ref.as_float(ref.helmert(3)), ["x", "y", "z"]),
+        "C(A, contr.helmert(reverse=False, scale=True))": (ref.as_float(ref.helmert(3, False, True)), ["x", "y", "z"]),
+        "C(A, contr.diff)": (ref.as_float(ref.diff(3)), ["x", "y", "z"]),
+        "C(A, contr.diff(backward=False))": (ref.as_float(ref.diff(3, False)), ["x", "y", "z"]),
+        "C(A, contr.poly)": (ref.poly(3), ["x", "y", "z"]),
+        "C(A, levels=['z', 'x', 'y'])": (ref.as_float(ref.treatment(3, 0)), ["z", "x", "y"]),
+        "C(A, contr.sum, levels=['y', 'z', 'x', 'w'])": (ref.as_float(ref.sum_(4)), ["y", "z", "x", "w"]),
+        "C(A, contr.treatment, levels=['w', 'x', 'y', 'z'])": (ref.as_float(ref.treatment(4, 0)), ["w", "x", "y", "z"]),
+    }
+    coding, lv = table[p["spec"]]
+    rows = ["x", "y", "z", "y", "x", "z", None]
+    df = pandas.DataFrame({"A": pandas.Categorical(rows, categories=["x", "y", "z"]), "a": numpy.array(p["a"], dtype=float)})
+    formula = p["formula"]
+    mm = model_matrix(formula, df, output="numpy")
+    labels = list(mm.model_spec.column_names)
+    kept = [i for i, r in enumerate(rows) if r is not None]
+    cells = numpy.asarray(mm, dtype=float).reshape((-1, len(labels)))
+    if cells.shape[0] != len(kept):
+        return f"null-rows-kept: {cells.shape[0]} rows"
+    reduced = formula.startswith("1 + C(") or formula.startswith("1 + a + a:")
+    want = coding if reduced else numpy.eye(len(lv))
+    cat_cols = [j for j, l in enumerate(labels) if p["spec"] in l]
+    if len(cat_cols) != want.shape[1]:
+        return f"wrong-column-count: {formula!r} has {len(cat_cols)} columns for the factor, expected {want.shape[1]} ({labels})"
+    with_a = "a:" in formula
+    for r, i in enumerate(kept):
+        li = lv.index(rows[i])
+        for c, j in enumerate(cat_cols):
+            w = want[li, c] * (p["a"][i] if with_a else 1.0)
+            if abs(cells[r, j] - w) > 1e-7 * (1 + abs(w)):
+                return f"encoding-mismatch: {formula!r} row {i} (level {rows[i]!r}) column {labels[j]!r} = {cells[r, j]}, indicator x coding gives {w}"
+    return None
